@@ -41,6 +41,8 @@ COMPONENTS = {
 }
 PROBES = ["read-wo", "write-ro", "missing-index", "missing-sub-of-record", "missing-sub-of-var", "wrong-length", "no-value", "toggle-up", "toggle-down",
           "unknown-command", "client-decoding", "valid-after-refusal", "refusal-on-closing-segment-of-undeclared-stream"]
+# probes that mark an injected disturbance; the runner also counts them as fired faults in the evidence
+FAULT_PROBES = {'toggle-down': 'wrong-toggle-request', 'toggle-up': 'wrong-toggle-request', 'unknown-command': 'unknown-command-request'}
 
 WO, RO, NOOBJ, NOSUB, LEN, LEN_HI, LEN_LO, NOVAL1, NOVAL2, TOGGLE, CMD = (
     0x06010001, 0x06010002, 0x06020000, 0x06090011, 0x06070010, 0x06070012, 0x06070013, 0x060A0023, 0x08000024, 0x05030000, 0x05040001)
